@@ -41,6 +41,10 @@ type Prog struct {
 	Anchors   map[string]AnchorPrint
 	Lookups   map[string]bool   // every name looked up in this run
 	Relocated map[string]string // anchor -> name it was found under
+	// Structs: recorded field lists of the repo's struct types ("pkg.Type" -> fields);
+	// FieldAlias: a field that was renamed since -> the name the rule tables use
+	Structs    map[string][]FieldPrint
+	FieldAlias map[*types.Var]string
 	// RenamedName: "pkg|oldName" -> new name (so that call sites naming the old method
 	// are matched too)
 	RenamedName map[string]string
@@ -58,6 +62,98 @@ func (p *Prog) ResolveAnchors() {
 		parts := strings.SplitN(k, "|", 3)
 		if p.funcByName(parts[0], parts[1], parts[2]) == nil {
 			p.relocate(k, parts[0], parts[1])
+		}
+	}
+}
+
+// FieldPrint records one field of a struct type.
+type FieldPrint struct {
+	Name string `json:"name"`
+	Type string `json:"type"`
+}
+
+// StructPrints lists the fields of every struct type of the repo packages that has
+// unexported fields.
+func (p *Prog) StructPrints() map[string][]FieldPrint {
+	out := map[string][]FieldPrint{}
+	for path, pk := range p.Pkgs {
+		sc := pk.Types.Scope()
+		for _, n := range sc.Names() {
+			tn, ok := sc.Lookup(n).(*types.TypeName)
+			if !ok {
+				continue
+			}
+			st, ok := tn.Type().Underlying().(*types.Struct)
+			if !ok {
+				continue
+			}
+			var fs []FieldPrint
+			unexp := false
+			for i := 0; i < st.NumFields(); i++ {
+				f := st.Field(i)
+				if !f.Exported() {
+					unexp = true
+				}
+				fs = append(fs, FieldPrint{f.Name(), types.TypeString(f.Type(), func(q *types.Package) string { return q.Name() })})
+			}
+			if unexp {
+				out[strings.TrimPrefix(path, ModPath+"/")+"."+n] = fs
+			}
+		}
+	}
+	return out
+}
+
+// ResolveFields finds renamed unexported fields: a recorded field whose name is gone,
+// while the struct has exactly one field of the same type whose name was not recorded.
+func (p *Prog) ResolveFields() {
+	p.FieldAlias = map[*types.Var]string{}
+	for key, rec := range p.Structs {
+		i := strings.LastIndexByte(key, '.')
+		if i < 0 {
+			continue
+		}
+		pk := p.Pkgs[ModPath+"/"+key[:i]]
+		if pk == nil {
+			continue
+		}
+		tn, ok := pk.Types.Scope().Lookup(key[i+1:]).(*types.TypeName)
+		if !ok {
+			continue
+		}
+		st, ok := tn.Type().Underlying().(*types.Struct)
+		if !ok {
+			continue
+		}
+		recorded := map[string]bool{}
+		for _, f := range rec {
+			recorded[f.Name] = true
+		}
+		cur := map[string]*types.Var{}
+		for j := 0; j < st.NumFields(); j++ {
+			cur[st.Field(j).Name()] = st.Field(j)
+		}
+		for _, f := range rec {
+			if _, still := cur[f.Name]; still || (f.Name != "" && f.Name[0] >= 'A' && f.Name[0] <= 'Z') {
+				continue
+			}
+			var cands []*types.Var
+			for j := 0; j < st.NumFields(); j++ {
+				v := st.Field(j)
+				if recorded[v.Name()] {
+					continue
+				}
+				if types.TypeString(v.Type(), func(q *types.Package) string { return q.Name() }) == f.Type {
+					cands = append(cands, v)
+				}
+			}
+			if len(cands) == 1 {
+				p.FieldAlias[cands[0]] = f.Name
+				if p.Relocated == nil {
+					p.Relocated = map[string]string{}
+				}
+				p.Relocated["field "+key+"."+f.Name] = cands[0].Name()
+			}
 		}
 	}
 }
